@@ -54,9 +54,17 @@ impl<W> BufWriter<W> {
 }
 
 impl<W: AsyncWrite> BufWriter<W> {
+    async fn flush_buf(&mut self) -> IoResult<()> {
+        let Self { writer, buf } = self;
+
+        buf.flush_to(writer).await?;
+
+        Ok(())
+    }
+
     async fn flush_if_needed(&mut self) -> IoResult<()> {
         if self.buf.need_flush() {
-            self.flush().await?;
+            self.flush_buf().await?;
         }
         Ok(())
     }
@@ -110,11 +118,8 @@ impl<W: AsyncWrite> AsyncWrite for BufWriter<W> {
     }
 
     async fn flush(&mut self) -> IoResult<()> {
-        let Self { writer, buf } = self;
-
-        buf.flush_to(writer).await?;
-
-        Ok(())
+        self.flush_buf().await?;
+        self.writer.flush().await
     }
 
     async fn shutdown(&mut self) -> IoResult<()> {
